@@ -22,6 +22,7 @@ func init() {
 	Replayers["fault-history"] = replayFaultHistory
 	Replayers["feed-cycle"] = replayFeedCycle
 	Replayers["distribute"] = replayDistribute
+	Replayers["many-logs"] = replayManyLogs
 }
 
 func scratchRun(m map[string]any) *ev.Run {
@@ -247,4 +248,17 @@ func replayWitnessPath(m map[string]any) int {
 	}
 	fmt.Printf("recorded: what=%v\nrecorded: expected=%v observed=%v\n", m["what"], m["expected"], m["observed"])
 	return 0
+}
+
+// replayManyLogs re-runs the many-logs sweep of C16 on the recorded store.
+func replayManyLogs(m map[string]any) int {
+	wh.InstallLogicalClock()
+	run := scratchRun(m)
+	u := uni.New(ev.Seed(), 6, []int{0, 3})
+	store, _ := m["store"].(string)
+	if store == "" {
+		store = "sql"
+	}
+	c16ManyLogs(run, u, wh.NewCPGen(u), store, c16Setup)
+	return run.Finish()
 }
